@@ -5,6 +5,7 @@ import (
 	"os"
 	"os/exec"
 	"path/filepath"
+	"sort"
 	"strings"
 	"sync"
 	"time"
@@ -189,6 +190,43 @@ func releaseRequery(res *Result, bin, base string, seed int64) {
 		requery(id, "large finished command (release raced with look-ups)", "C13:released-unit-known")
 		res.count("release_vs_lookup_rounds", 1)
 	}
+	// 4. non-canonical names of an existing unit ("<id>/", "./<id>", "<id>/.", "x/../<id>"): a directory has exactly one id.
+	// WorkUnit.tla (AliasLookup): such a name is an unknown work unit and the command has no effect.
+	if id := mk(false); id != "" {
+		aliases := []string{id + "/", "./" + id, id + "/.", "x/../" + id}
+		for ai, al := range aliases {
+			sub := []string{"status", "cancel", "release", "status"}[ai]
+			r, err := simpleCmd(d, "work "+sub+" "+al, 60*time.Second)
+			if err != nil || r == nil {
+				res.note(fmt.Sprintf("%s: work %s %s not answered: %v", name, sub, al, err))
+
+				continue
+			}
+			res.count("alias_commands", 1)
+			if r.Err == "" || !strings.Contains(r.Err, "unknown work unit") {
+				viol("C13:alias-of-unit-known", fmt.Sprintf("'work %s %s' (a non-canonical name of unit %s) was answered %s instead of 'unknown work unit'", sub, al, id, trunc(r.Raw, 120)))
+			}
+			if _, serr := os.Stat(d.UnitDir(id)); serr != nil {
+				viol("C13:alias-command-removed-unit", fmt.Sprintf("after 'work %s %s' the directory of unit %s is gone although %s was never released", sub, al, id, id))
+
+				break
+			}
+			if lr, err := simpleCmd(d, "work list", 30*time.Second); err == nil && lr != nil && lr.JSON != nil {
+				n := 0
+				for k := range lr.JSON {
+					if filepath.Clean(k) == id || strings.HasSuffix(filepath.Clean(k), "/"+id) {
+						n++
+					}
+				}
+				if n != 1 {
+					viol("C13:duplicate-id", fmt.Sprintf("after 'work %s %s' the unit directory of %s is listed %d times: %v", sub, al, id, n, keysOf(lr.JSON)))
+				}
+			}
+		}
+		if m, _, err := statusOf(d, id, 30*time.Second); err == nil && m == nil {
+			viol("C13:alias-command-removed-unit", fmt.Sprintf("unit %s is no longer known after commands on its aliases only", id))
+		}
+	}
 	// the order of the two steps of every release in this scenario: files first, index entry last
 	for _, sig := range releaseOrderProblems(traceEvents(d.Trace)) {
 		viol("C13:release-unregisters-before-removal", sig)
@@ -214,6 +252,16 @@ func releaseOrderProblems(evs []sftrace.Event) []string {
 			rmSeen[e.Str("id")] = false
 		}
 	}
+
+	return out
+}
+
+func keysOf(m map[string]any) []string {
+	var out []string
+	for k := range m {
+		out = append(out, k)
+	}
+	sort.Strings(out)
 
 	return out
 }
